@@ -202,7 +202,7 @@ def run(rep, tier, seed):
     bad = []
     try:
         files = make_assets(root)
-        n = 60 if tier == "quick" else 800
+        n = 60 if tier == "quick" else 3000
         docs = [gen_doc(rng, files) for _ in range(n)]
         docs += [b"", b"\n", b"Title: only metadata\n", b"![lonely](one.png)\n", b"![a](one.png)![b](one.png)\n\n![c][pic0]\n\n[pic0]: two.png\n\n![d](img/three.png)\n"]
         plain = {}
